@@ -97,6 +97,14 @@ def const_model(ex, st, c):
     if m:
         o = Obj('tracing::Level', kind='const'); o.attrs['const'] = c
         return o
+    m = re.match(r'^core::num::<impl (\w+)>::(MAX|MIN|BITS)$', c)
+    if m and m.group(1) in INT_TY:
+        b = INT_TY[m.group(1)]; sg = m.group(1) in SIGNED
+        if m.group(2) == 'BITS':
+            return z3.BitVecVal(b, 32)
+        if m.group(2) == 'MAX':
+            return z3.BitVecVal((1 << (b - 1)) - 1 if sg else (1 << b) - 1, b)
+        return z3.BitVecVal(-(1 << (b - 1)) if sg else 0, b)
     m = re.match(r'^(\w+)::MAX$', c)
     if m and m.group(1) in INT_TY:
         b = INT_TY[m.group(1)]
@@ -141,7 +149,7 @@ def m_pin_new(ctx):
     return [(None, o)]
 
 
-@model(r'^Pin::<.*>::(as_mut|get_mut|get_unchecked_mut|into_inner|get_ref|as_ref|into_ref)$|^Pin::<.*>::map_unchecked_mut')
+@model(r'^Pin(?:::<.*>)?::(as_mut|get_mut|get_unchecked_mut|into_inner|get_ref|as_ref|into_ref)$|^Pin::<.*>::map_unchecked_mut')
 def m_pin_as_mut(ctx):
     v = ctx.args[0]
     v2 = ctx.ex.deref_val(ctx.st, v) if isinstance(v, Ref) else v
@@ -152,7 +160,7 @@ def m_pin_as_mut(ctx):
     return [(None, v)]
 
 
-@model(r'^Box::<.*>::(pin|new)$|^std::boxed::Box::<.*>::(pin|new)$')
+@model(r'^Box(?:::<.*>)?::(pin|new)$|^std::boxed::Box(?:::<.*>)?::(pin|new)$')
 def m_box_new(ctx):
     o = Obj('Box', kind='box'); o.fields[('in', 0)] = ctx.args[0]
     return [(None, o)]
@@ -223,6 +231,15 @@ def m_panic(ctx):
 @model(r'^std::process::abort|^std::process::exit')
 def m_abort(ctx):
     return Diverge('panic', ctx.callee[:80])
+
+
+@model(r'^(std::num::|core::num::)?NonZero::<(\w+)>::(new|get|new_unchecked)$')
+def m_nonzero(ctx):
+    op = ctx.callee.rsplit('::', 1)[1]
+    x = ctx.args[0]
+    if op in ('get', 'new_unchecked'):
+        return [(None, x)]
+    return [(x == 0, none()), (x != 0, (lambda s2: some(x)))]
 
 
 # ---------------------------------------------------------------- integers
@@ -318,7 +335,8 @@ def m_num(ctx):
             r = z3.If(z3.UGT(a, z3.BitVecVal(1 << (k - 1), n)), z3.BitVecVal(1 << k, n), r)
         ovf = z3.UGT(a, z3.BitVecVal(1 << (n - 1), n))
         if op == 'next_power_of_two':
-            return [(ovf, Diverge('panic', 'next_power_of_two overflow (debug)')), (z3.Not(ovf), r)]
+            # the precompiled std has overflow checks off: on overflow the result wraps to 0 (documented release behaviour)
+            return [(None, z3.If(ovf, z3.BitVecVal(0, n), r))]
         return [(ovf, none()), (z3.Not(ovf), (lambda s2, r=r: some(r)))]
     if op in ('to_be_bytes', 'to_le_bytes', 'from_be_bytes', 'from_le_bytes', 'to_ne_bytes', 'from_ne_bytes'):
         if 'be' in op:
@@ -480,8 +498,8 @@ def m_from_residual(ctx):
     return [(None, r)]
 
 
-OPT_RX = r'^(std::|core::)?(option::)?Option::<.*>::(\w+)$|OptionExt<.*>>::(ok_or_eyre)$'
-RES_RX = r'^(std::|core::)?(result::)?Result::<.*>::(\w+)$'
+OPT_RX = r'^(std::|core::)?(option::)?Option(?:::<.*>)?::(\w+)$|OptionExt<.*>>::(ok_or_eyre)$'
+RES_RX = r'^(std::|core::)?(result::)?Result(?:::<.*>)?::(\w+)$'
 
 
 @model(OPT_RX)
@@ -819,7 +837,7 @@ def shaped(ex, st, v, what='container'):
     return o
 
 
-@model(r'^Vec::<.*>::(new|with_capacity|push|len|is_empty|pop|clear|iter|iter_mut|as_slice|first|last|get|extend_from_slice|truncate|insert|remove|contains|reserve|into_boxed_slice|as_mut_slice|sort_unstable|sort|dedup|swap_remove|drain|retain|append|split_off|first_mut|last_mut)$|^std::vec::Vec::<.*>::(new|with_capacity)$|^core::slice::<impl \[.*\]>::(iter|iter_mut|len|is_empty|first|last|get|contains|to_vec|into_vec|sort_unstable|sort|split_first|split_last|concat)$|^std::slice::<impl \[.*\]>::(to_vec|into_vec|concat|sort|sort_unstable)$|^<\[.*\] as ToOwned>::to_owned$')
+@model(r'^Vec(?:::<.*>)?::(new|with_capacity|push|len|is_empty|pop|clear|iter|iter_mut|as_slice|first|last|get|extend_from_slice|truncate|insert|remove|contains|reserve|into_boxed_slice|as_mut_slice|sort_unstable|sort|dedup|swap_remove|drain|retain|append|split_off|first_mut|last_mut)$|^std::vec::Vec(?:::<.*>)?::(new|with_capacity)$|^core::slice::<impl \[.*\]>::(iter|iter_mut|len|is_empty|first|last|get|contains|to_vec|into_vec|sort_unstable|sort|split_first|split_last|concat)$|^std::slice::<impl \[.*\]>::(to_vec|into_vec|concat|sort|sort_unstable)$|^<\[.*\] as ToOwned>::to_owned$')
 def m_vec(ctx):
     ex, st = ctx.ex, ctx.st
     op = ctx.callee.rsplit('::', 1)[1]
@@ -837,7 +855,7 @@ def m_vec(ctx):
     if op == 'push':
         items.append(ctx.args[1]); return [(None, ())]
     if op == 'len':
-        return [(None, z3.BitVecVal(len(items), 64))]
+        return [(None, z3.BitVecVal(len(items) * v.attrs.get('bytes_per_item', 1), 64))]
     if op == 'is_empty':
         return [(None, z3.BoolVal(len(items) == 0))]
     if op == 'pop':
@@ -1191,7 +1209,7 @@ def remap(ex, st2):
     return shaped(ex, st2, _reeval_arg0(ex, st2))
 
 
-@model(r'^(std::collections::)?(HashMap|BTreeMap|IndexMap|HashSet|BTreeSet|IndexSet)::<.*>::(new|with_capacity|get|get_mut|contains_key|contains|insert|remove|len|is_empty|iter|iter_mut|keys|values|values_mut|clear|entry|first_key_value|last_key_value|pop_first|pop_last|into_keys|into_values|get_key_value|swap_remove|shift_remove|retain|extend|drain|get_index|first|last|with_capacity_and_hasher|default|sort_unstable_keys|sort_keys)$')
+@model(r'^(std::collections::)?(HashMap|BTreeMap|IndexMap|HashSet|BTreeSet|IndexSet)(?:::<.*>)?::(new|with_capacity|get|get_mut|contains_key|contains|insert|remove|len|is_empty|iter|iter_mut|keys|values|values_mut|clear|entry|first_key_value|last_key_value|pop_first|pop_last|into_keys|into_values|get_key_value|swap_remove|shift_remove|retain|extend|drain|get_index|first|last|with_capacity_and_hasher|default|sort_unstable_keys|sort_keys)$')
 def m_map(ctx):
     ex, st = ctx.ex, ctx.st
     op = ctx.callee.rsplit('::', 1)[1]
